@@ -217,7 +217,8 @@ def cloneTrees (s : Store) (n : Nat) : List Nat → Store × List Nat
 
 def setTrees (s : Store) (l : Nat) (ts : List Nat) : Store := { s with tl := upd s.tl l { (s.tl l) with trees := ts } }
 
-def splice (xs : List Nat) (a b : Nat) (new : List Nat) : List Nat := xs.take a ++ new ++ xs.drop b
+/-- Python slice assignment `xs[a:b] = new` for `0 ≤ a, b` (an end before the start means an empty slice at `a`) -/
+def splice (xs : List Nat) (a b : Nat) (new : List Nat) : List Nat := xs.take a ++ new ++ xs.drop (max a b)
 
 def allocTl (s : Store) (n : Nat) : Store × Nat :=
   ({ s with tl := upd s.tl s.nTl { ns := n, trees := [] }, nTl := s.nTl + 1 }, s.nTl)
@@ -370,10 +371,11 @@ inductive Op where
   | dsdetach (d : Nat)
   | dsunify (d : Nat) (n : Option Nat)
   | dsread (d : Nat) (taxa : List String) (rows : Option (List String)) (trees : Option (List (List String)))
+  | taadd (n t : Nat)                                   -- `TreeArray(taxon_namespace=n).add_tree(t)`: holds no tree, refuses a foreign one
 deriving Repr
 
 inductive Status where
-  | ok | valueError | conflict | typeError
+  | ok | valueError | conflict | typeError | indexError | nsIdentity
 deriving DecidableEq, Repr
 
 def srcInto (s : Store) (l a b : Nat) : Src → Store
@@ -396,7 +398,10 @@ def step (s : Store) : Op → Store × Status
   | .ds => ({ s with nDs := s.nDs + 1 }, .ok)
   | .append l t st => (spliceT s l (len s l) (len s l) st [t], .ok)
   | .insert l i t st => (spliceT s l i i st [t], .ok)
-  | .setitem l i t => (spliceT s l i (i + 1) .migrate [t], .ok)
+  | .setitem l i t =>
+    -- `self._trees[i] = self._import_tree_to_taxon_namespace(t)`: the tree is imported before the position is looked at
+    if i < len s l then (spliceT s l i (i + 1) .migrate [t], .ok)
+    else (importTrees s (s.tl l).ns .migrate [t], .indexError)
   | .setslice l a b src => (srcInto s l a b src, .ok)
   | .extend l src => (srcInto s l (len s l) (len s l) src, .ok)
   | .add l src =>
@@ -416,7 +421,8 @@ def step (s : Store) : Op → Store × Status
     let r := allocTl s (s.tl l).ns
     (setTrees r.1 r.2 (((s.tl l).trees.take b).drop a), .ok)
   | .pop l i => (setTrees s l (splice (s.tl l).trees i (i + 1) []), .ok)
-  | .remove l t => (setTrees s l ((s.tl l).trees.erase t), .ok)
+  | .remove l t =>
+    if (s.tl l).trees.contains t then (setTrees s l ((s.tl l).trees.erase t), .ok) else (s, .valueError)
   | .lclone l n =>
     let src := s.tl l
     let tgt := n.getD src.ns
@@ -515,10 +521,57 @@ def step (s : Store) : Op → Store × Status
         let r := readTrees s' n docs
         setTrees r.1 a.2 r.2
     (s3, .ok)
+  | .taadd n t => (s, if (s.tree t).ns = n then .ok else .nsIdentity)
 
 def run (s : Store) : List Op → Store
   | [] => s
   | op :: ops => run (step s op).1 ops
+
+/-! ## what the code refuses outright: ids of objects that do not exist, positions out of range (`IndexError`) -/
+
+def srcIds (s : Store) : Src → Bool
+  | .trees ts => ts.all (fun t => decide (t < s.nTree))
+  | .list l => decide (l < s.nTl)
+
+def onsOk (s : Store) : Option Nat → Bool
+  | none => true
+  | some n => decide (n < s.nNs)
+
+def idsOk (s : Store) : Op → Bool
+  | .ns _ _ | .ds => true
+  | .tree n taxa => decide (n < s.nNs) && taxa.all (fun o => match o with | none => true | some i => decide (i < (mem s n).length))
+  | .tlist n => onsOk s n
+  | .mat n idx => decide (n < s.nNs) && idx.all (fun i => decide (i < (mem s n).length))
+  | .append l t _ => decide (l < s.nTl) && decide (t < s.nTree)
+  | .insert l _ t _ => decide (l < s.nTl) && decide (t < s.nTree)
+  | .setitem l _ t => decide (l < s.nTl) && decide (t < s.nTree)
+  | .setslice l _ _ src | .extend l src | .add l src => decide (l < s.nTl) && srcIds s src
+  | .read l _ | .getslice l _ _ => decide (l < s.nTl)
+  | .newtree l none => decide (l < s.nTl)
+  | .newtree l (some t) => decide (l < s.nTl) && decide (t < s.nTree)
+  | .pop l i => decide (l < s.nTl) && decide (i < (s.tl l).trees.length)
+  | .remove l t => decide (l < s.nTl) && decide (t < s.nTree)
+  | .lclone l n => decide (l < s.nTl) && onsOk s n
+  | .tclone t n => decide (t < s.nTree) && onsOk s n
+  | .mclone m n => decide (m < s.nMat) && onsOk s n
+  | .tmig t n _ => decide (t < s.nTree) && decide (n < s.nNs)
+  | .trec t _ => decide (t < s.nTree)
+  | .lmig l n _ => decide (l < s.nTl) && decide (n < s.nNs)
+  | .lrec l _ => decide (l < s.nTl)
+  | .mmig m n _ => decide (m < s.nMat) && decide (n < s.nNs)
+  | .mrec m _ => decide (m < s.nMat)
+  | .mset m n i | .mnew m n i => decide (m < s.nMat) && decide (n < s.nNs) && decide (i < (mem s n).length)
+  | .dsaddN d n => decide (d < s.nDs) && decide (n < s.nNs)
+  | .dsaddL d l => decide (d < s.nDs) && decide (l < s.nTl)
+  | .dsaddM d m => decide (d < s.nDs) && decide (m < s.nMat)
+  | .dsnewlist d | .dsnewmat d | .dsnewns d | .dsdetach d | .dsread d _ _ _ => decide (d < s.nDs)
+  | .dsattach d n => decide (d < s.nDs) && decide (n < s.nNs)
+  | .dsunify d n => decide (d < s.nDs) && onsOk s n
+  | .taadd n t => decide (n < s.nNs) && decide (t < s.nTree)
+
+/-- what the driver runs: an operation addressing a missing object or position is refused and changes nothing -/
+def stepG (s : Store) (op : Op) : Store × Status :=
+  if idsOk s op then step s op else (s, .indexError)
 
 /-! ## the domain of the closure theorems: ownership and refusal-free migrations (decidable) -/
 
@@ -577,7 +630,7 @@ def inRange (s : Store) : Op → Bool
   | .dsunify d _ | .dsread d _ _ _ => decide (d < s.nDs)
   | _ => true
 
-def valid (s : Store) (op : Op) : Bool := inRange s op && owner s op
+def valid (s : Store) (op : Op) : Bool := idsOk s op && inRange s op && owner s op
 
 /-! ## rendering (taxon ids are renamed by the harness) -/
 
@@ -600,13 +653,14 @@ def render (s : Store) : String :=
 
 def Status.text : Status → String
   | .ok => "ok" | .valueError => "ValueError" | .conflict => "Conflict" | .typeError => "TypeError"
+  | .indexError => "IndexError" | .nsIdentity => "NamespaceIdentity"
 
 /-- trace of a history: per step `status valid|invalid state` -/
 def trace (s : Store) : List Op → List String
   | [] => []
   | op :: ops =>
     let v := valid s op
-    let r := step s op
+    let r := stepG s op
     (r.2.text ++ " " ++ (if v then "valid" else "invalid") ++ " " ++ render r.1) :: trace r.1 ops
 
 end DendroModel.C11
